@@ -12,6 +12,23 @@ import (
 func init() {
 	register("DEBUG", true, func(r *Run, prog *Program) {
 		name := os.Getenv("VERIF_DEBUG_FN")
+		if name == "GLOBALS" {
+			gm := prog.Globals()
+			for g, v := range gm.st.gcells {
+				if strings.HasPrefix(g.Name(), "g") && len(g.Name()) == 1 {
+					continue
+				}
+				k := v.Key()
+				if len(k) > 300 {
+					k = k[:300]
+				}
+				fmt.Printf("global %s immut=%v = %s\n", g.Name(), gm.immut[g], k)
+			}
+			for m, e := range gm.st.maps {
+				fmt.Printf("map %s: %d entries\n", m.Name(), len(e))
+			}
+			return
+		}
 		fn := prog.BexprSSA.Func(name)
 		if fn == nil {
 			fn = prog.GrammarSSA.Func(name)
